@@ -6,6 +6,7 @@ from ..consumerflow import consumer_scenarios
 from ..facts import AnalysisError
 from ..models import make_interp
 from ..tmplcheck import family_results, report
+from ._matchrules import is_addr_projection
 
 FLOORS = {"C07.P1.starts-at-address": 300, "C07.P1.ends-at-bar": 300, "C07.P2.separator-discipline": 1000,
           "C07.P3.macro-wildcards": 1, "C07.P4.address-is-prefix-of-match": 2, "C07.P5.scan-starts-at-stream-start": 8}
@@ -70,7 +71,7 @@ def run(ctx) -> None:
     for mode in ("first_find", "all_finds"):
         full = {r for s in sc if s.mode == mode and not s.only_addr and s.path.kind == "return" for r in map(_shape, s.reported(I))}
         addr = {r for s in sc if s.mode == mode and s.only_addr and s.path.kind == "return" for r in map(_shape, s.reported(I))}
-        ok = len(full) == 1 and len(addr) == 1 and list(addr)[0] == list(full)[0] + ".split('::')[0]" and \
+        ok = len(full) == 1 and len(addr) == 1 and is_addr_projection(list(addr)[0], list(full)[0]) and \
             list(full)[0].endswith(".group(0)")
         ctx.check(ok, "C07.P4.address-is-prefix-of-match", f"CompleteConsumer[{mode}]",
                   f"addr={sorted(addr)} full={sorted(full)}",
